@@ -10,7 +10,7 @@
    variant is the j-th member, the first (= only) arm naming j runs with the
    argument bound to that member's payload; if there is none, the default arm
    runs. *)
-From Capy Require Import Common.Util Model.Switch.
+From Capy Require Import Common.Util Model.Switch Model.SwitchFixed.
 
 Definition is_enum_shape (sh : shape) : bool :=
   match sh with SEnum _ _ => true | _ => false end.
@@ -141,6 +141,19 @@ Definition ptr_payload_arm (sh : shape) (a : arm) : bool :=
 Definition known_codegen_class (sh : shape) (arms : list arm) (dflt with_arg : bool) : option kclass :=
   if negb (is_tagged sh) && dflt then Some KNullableDefault
   else if with_arg && is_tagged sh && existsb (ptr_payload_arm sh) arms then Some KPointerPayloadArg
+  else None.
+
+(* the known classes that are still open when the repairs [f] are present in the tree *)
+Definition known_check_class_fx (f : fixes) (s : scrut) (arms : list arm) : option kclass :=
+  if wrapped s && is_sum_shape (s_shape s) && negb (fx1 f) then Some KWrappedScrutinee
+  else if existsb (nil_like_arm (s_shape s)) arms && negb (fx3 f) then Some KNilLikeArm
+  else None.
+
+Definition known_codegen_class_fx (f : fixes) (sh : shape) (arms : list arm) (dflt with_arg : bool)
+  : option kclass :=
+  if negb (is_tagged sh) && dflt && negb (fx4 f) then Some KNullableDefault
+  else if with_arg && is_tagged sh && existsb (ptr_payload_arm sh) arms && negb (fx5 f)
+       then Some KPointerPayloadArg
   else None.
 
 (* ------------------------------------------------ discriminant specification *)
